@@ -118,19 +118,24 @@ class PrintUsingFormatter:
 
 
     def format_number(self, fmt, value, options):
-        fmt_str = '{:'
-        if options.get('comma', False):
-            fmt_str += ','
-        if 'decimal_point' in options:
-            fmt_str += '.'
-            fmt_str += str(len(fmt) - options['decimal_point'])
-            fmt_str += 'f'
-        fmt_str += '}'
-
         if 'sign' in options:
             sign_pos, sign_type = options['sign']
         else:
             sign_pos, sign_type = 'begin', '-'
+
+        # the number of decimals is the number of sharps after the
+        # decimal point; a trailing sign is not one of them, and a
+        # field without a decimal point shows no decimals at all.
+        decimals = 0
+        if 'decimal_point' in options:
+            decimals = len(fmt) - options['decimal_point']
+            if sign_pos == 'end':
+                decimals -= 1
+
+        fmt_str = '{:'
+        if options.get('comma', False):
+            fmt_str += ','
+        fmt_str += '.' + str(decimals) + 'f}'
 
         sign = -1 if value < 0 else 1
         value = abs(value)
@@ -146,16 +151,13 @@ class PrintUsingFormatter:
             result = sign + result
         else:
             result = result + sign
-            if sign != '-':
-                result = ' ' + result
 
         if len(result) < len(fmt):
             result = ' ' * (len(fmt) - len(result)) + result
 
+        # the position of an implicit leading sign can hold a digit
         if sign == ' ' and len(result) > len(fmt) and sign_pos == 'begin':
             result = result[1:]
-        elif sign == ' ' and len(result) > len(fmt) and sign_pos == 'end':
-            result = result[:-1]
 
         if len(result) > len(fmt):
             result = '%' + result
